@@ -7,6 +7,12 @@
   item per instruction of the expansion — the instruction with its register aliases resolved, or the
   compressed form a compression pass decided for it (`FinalOf`) — and every item of `G7` is placed at
   the byte offset given by the sizes before it (`PlacedAt`, Lemmas/TwoOutputs).
+
+  `G7` is not free: `strip G7 = lay.aligned` for the layout `layoutOf H compress items = .ok lay` (Props/C04, a
+  function of the inputs, tables = the returned ones), the part `P` before the block is the image of the source
+  prefix `A` and the part `S` after it of the source suffix `B` (`Expands`, Lemmas/Order), and `G7` has no item of
+  negative size.  `SourceAt` / `sourceAt_of_trace` package this as "the block stands at byte offset
+  `off = sizeSum P ≥ 0`", which is what the C05 program-level theorems conclude about their `off`.
 -/
 import BB.Lemmas.TwoOutputs
 import BB.Lemmas.LayoutAnchor
